@@ -7,7 +7,7 @@ Case lines (shared with harness/c08/c08.c):
                                               object k; all script lines come before the first command
   t <op>                                      master->do_op(op)   (top level)
   snap | probe | gc
-op syntax (comma separated):  ld,<file> | cl,<file> | mv,o<a>,o<d> | de,o<a> | ec,o<a> | dc,o<a> | ln,o<a>,<name> |
+op syntax (comma separated):  ld,<file> | cl,<file> | mv,o<a>,o<d> | mvs,o<a>,<file> | fis,<file> | de,o<a> | ec,o<a> | dc,o<a> | ln,o<a>,<name> |
   fo,<file>[#<n>] | fl,<name> | aa,o<a>,<verb> | cmd,o<a>,<verb> | kp,o<a> | rd | err | mvarg | nop          <file> ::= b<k> | nx | bad
 -/
 import NV.Common.Proto
@@ -39,6 +39,8 @@ def parseOp (s : String) : Option Op :=
   | ["ld", b] => (parseBase b).map .ld
   | ["cl", b] => (parseBase b).map .cl
   | ["mv", a, d] => do some (.mv (← parseOid a) (← parseOid d))
+  | ["mvs", a, b] => do some (.mvs (← parseOid a) (← parseBase b))
+  | ["fis", b] => (parseBase b).map .fis
   | ["de", a] => (parseOid a).map .de
   | ["ec", a] => (parseOid a).map .ec
   | ["dc", a] => (parseOid a).map .dc
